@@ -493,7 +493,7 @@ SRV_ASSUME_B1 = ("reuse_only_after_completion (B1): the peer re-sends a request 
                  "(duplicate) or after a response bearing it was transmitted; necessary, see the _refuted theorem")
 SRV_ASSUME_STOP = ("stops_after_error: the application does not poll the Requests stream again after it yielded an "
                    "error (tarpc's execute() stops there); the server does not latch transport failures")
-SRV_ASSUME_CLOCK = ("virtual clock below 2^35 ms in the generated scripts; the exact range in which the timer-wheel transliteration is a correct priority queue and the server model's order oracle provably agrees is clock <= 2^36 - 1 - MAX_TIMEOUT = 37183476735 ms (C16_dq_poll, C16_server_oracle_agrees; beyond it: TimerWheelWitness)")
+SRV_ASSUME_CLOCK = ("virtual clock below 2^35 ms in the generated scripts; the exact range in which the timer-wheel transliteration is a correct priority queue and the server model's order oracle provably agrees is clock <= 2^36 - 1 - MAX_TIMEOUT = 37183476735 ms (C16_dq_poll, C16_server_oracle_agrees_cfg for every configuration; beyond it: TimerWheelWitness)")
 SRV_K1_WITNESS = "L=1,B=1,C=0,K=c|R1.1000.7.5 P X1.7 R2.1000.7.6 P"
 SRV_K2_WITNESS = "L=1,B=1,C=0,K=c|R1.100.7.5 P H0 r0 A400 P H0 r1 P H0"
 
@@ -1302,7 +1302,9 @@ CHAIN_NOTE_C04 = (
     "node runs out of fuel (C14_chain_poll_fuel), the per-hop wire clause (C18_chain_wire), and SettleAll reaches a "
     "quiet round within its rounds budget whenever the timer-order oracle never disagrees (C04_chain_rounds, by a "
     "potential that no component poll increases: C04_chain_round_potential, C04_chain_settle_quiet; the unconditional "
-    "form is refuted beyond the DelayQueue range, C14_chain_fuel_pinned_refuted).")
+    "form is refuted beyond the DelayQueue range, C14_chain_fuel_pinned_refuted); while the chain's clock stays at or "
+    "below 2^36 - 1 - MAX_TIMEOUT ms the oracle provably never disagrees, so neither that taint nor a rounds overrun "
+    "can occur (C04_chain_no_oracle, C04_chain_rounds_clock, C04_chain_clock_clean).")
 for _pid, _part, _note in (
         ("C04", C04_COMPOSE_PART, CHAIN_NOTE_C04),
         ("C18", C18_COMPOSE_PART,
